@@ -196,8 +196,20 @@ def _install() -> None:
 
     def g_power(ch: core.Chooser) -> dict:
         a = gen_poly(ch.sub("a"), max_terms=3, max_exp=2)
-        if ch.chance(0.7) or not a["shape"]:
-            e: Any = S(ch.choice([0, 1, 2, 2, 3]))
+        form = ch.sub("form").weighted([(6, "usual"), (2, "poly_exponent"), (1, "0d_array_exponent"), (2, "scalar_base_array_exponent")])
+        if form == "poly_exponent":
+            # the exponent is itself a (constant) polynomial: 0-d, or an array matching the base
+            shape = () if ch.chance(0.6) or not a["shape"] else tuple(a["shape"])
+            vals = [ch.choice([0, 1, 2, 3]) for _ in range(int(numpy.prod(shape, dtype=int)))]
+            e: Any = P({"names": [ch.choice(["q0", "q1"])], "shape": list(shape), "dtype": "int64", "exponents": [[0]], "coefficients": [vals]})
+        elif form == "0d_array_exponent":
+            e = A(numpy.array(ch.choice([0, 1, 2, 3])), ch.choice(["int64", "int32", "uint8"]))
+        elif form == "scalar_base_array_exponent":
+            a = gen_poly(ch.sub("a0"), shape=(), max_terms=3, max_exp=2)
+            shape = ch.choice([(3,), (4,), (2, 2), (2, 3)])
+            e = A(numpy.array([ch.choice([0, 1, 2, 3]) for _ in range(int(numpy.prod(shape, dtype=int)))]).reshape(shape), "int64")
+        elif ch.chance(0.7) or not a["shape"]:
+            e = S(ch.choice([0, 1, 2, 2, 3]))
         else:
             shape = tuple(a["shape"]) if ch.chance(0.6) else tuple(a["shape"][-1:])
             e = A(numpy.array([ch.choice([0, 1, 2]) for _ in range(int(numpy.prod(shape, dtype=int)))]).reshape(shape), "int64")
